@@ -36,7 +36,7 @@ EXTENDS TopologyGuards, Json
 
 CONSTANTS
     NPods,        \* pods per batch
-    Archs,        \* archetype ids the batch is drawn from (subset of 1..22)
+    Archs,        \* archetype ids the batch is drawn from (subset of 1..23)
     Layouts,      \* existing-state ids (subset of 0..9)
     MaxClaims,    \* new NodeClaims per pass
     W_AllDomains, W_Inverse, W_Certain, W_Bootstrap, W_Slack, W_Exclude, W_MatchKeys, W_MinDomains, W_Policies
@@ -90,6 +90,8 @@ Arch(a, name) ==
       [] a = 20 -> [App(p, "f") EXCEPT !.aff = <<Term("zone", "f")>>, !.sel = [zone |-> "b"]]     \* self affinity, limited to zone b
       [] a = 21 -> [p EXCEPT !.aff = <<[Term("zone", "x") EXCEPT !.nsSel = [tier |-> "prod"]]>>]   \* namespaceSelector by label
       [] a = 22 -> [App(p, "s") EXCEPT !.spread = <<[Spr("zone", 1) EXCEPT !.taintPol = "Honor"]>>, !.tol = <<TolDedicated>>]
+      \* namespaces list AND namespaceSelector on one term (union: the list names "other", the selector picks "default")
+      [] a = 23 -> [p EXCEPT !.anti = <<[Term("zone", "x") EXCEPT !.ns = <<"other">>, !.nsSel = [tier |-> "dev"]]>>]
 PodName(i) == "w" \o ToString(i)
 Batches == {s \in [1..NPods -> Archs] : \A i \in 1..(NPods - 1) : s[i] <= s[i + 1]}
 
